@@ -1039,11 +1039,14 @@ func (n *ReferenceNode) Format(buf *bytes.Buffer, indent string, onNewLine bool)
 	}
 	writeIndent(buf, indent, onNewLine)
 	buf.WriteByte('"')
-	for _, c := range n.Reference {
+	// Copy bytes, not runes: ranging over the string would replace bytes that are not
+	// valid UTF-8 with U+FFFD and change the reference.
+	for i := 0; i < len(n.Reference); i++ {
+		c := n.Reference[i]
 		if c == '"' {
 			buf.WriteByte('\\')
 		}
-		buf.WriteRune(c)
+		buf.WriteByte(c)
 	}
 	buf.WriteByte('"')
 }
@@ -1149,11 +1152,14 @@ func (n *StringNode) Format(buf *bytes.Buffer, indent string, onNewLine bool) {
 	if n.TripleQuotes {
 		buf.WriteString(n.Literal)
 	} else {
-		for _, c := range n.Literal {
+		// Copy bytes, not runes: ranging over the string would replace bytes that are
+		// not valid UTF-8 with U+FFFD and change the literal.
+		for i := 0; i < len(n.Literal); i++ {
+			c := n.Literal[i]
 			if c == '\'' {
 				buf.WriteByte('\\')
 			}
-			buf.WriteRune(c)
+			buf.WriteByte(c)
 		}
 	}
 	if n.TripleQuotes {
